@@ -448,6 +448,9 @@ type batch struct {
 	// the log destination has a size limit or fails now and then: it notes every record it is offered and answers some
 	// with an error. What Relay owes the client does not depend on whether the log could be written.
 	sinkRejectsOver, sinkRejectsEvery int
+	// addSource: the logger was set up to record call sites. Relay's own records have none (program counter 0): whatever
+	// the handlers put in its place, the records are there with their members (round twenty-three)
+	addSource bool
 }
 
 func (b *batch) render() string {
@@ -459,7 +462,7 @@ func (b *batch) render() string {
 		}
 		parts = append(parts, fmt.Sprintf("%s %s from %s matched=%v {%s}", r.method, shown, r.remote, r.matched, r.b))
 	}
-	return fmt.Sprintf("%s threshold=%s parallel=%d: %s", lm.HandlerNames[b.kind], thresholdName(b.threshold), b.parallel, strings.Join(parts, " | "))
+	return fmt.Sprintf("%s threshold=%s addSource=%v parallel=%d: %s", lm.HandlerNames[b.kind], thresholdName(b.threshold), b.addSource, b.parallel, strings.Join(parts, " | "))
 }
 
 func genBatch(t *rapid.T) *batch {
@@ -474,6 +477,7 @@ func genBatch(t *rapid.T) *batch {
 	case 1:
 		b.sinkRejectsEvery = rapid.SampledFrom([]int{1, 2, 3, 5}).Draw(t, "rejectsEvery")
 	}
+	b.addSource = rapid.IntRange(0, 2).Draw(t, "addSource") == 0
 	n := rapid.IntRange(1, 12).Draw(t, "nreqs")
 	if b.parallel > 1 {
 		n = rapid.IntRange(b.parallel, 2*b.parallel).Draw(t, "nreqsParallel")
@@ -586,7 +590,7 @@ func genBatch(t *rapid.T) *batch {
 
 func runBatch(b *batch, realServer bool) string {
 	sink := &lm.Sink{RejectOver: b.sinkRejectsOver, RejectEvery: b.sinkRejectsEvery}
-	lg := logger.New(lm.NewHandler(b.kind, sink, logger.NewOptions(b.threshold, false, false)))
+	lg := logger.New(lm.NewHandler(b.kind, sink, logger.NewOptions(b.threshold, false, b.addSource)))
 	mux := httpd.NewMux()
 	theMux = mux
 	mux.HandleRelay(lg.Relay)
@@ -877,6 +881,9 @@ func TestBatches(t *testing.T) {
 		}
 		if b.sinkRejectsOver > 0 || b.sinkRejectsEvery > 0 {
 			ev.Label("log_destination_refuses_some_records")
+		}
+		if b.addSource {
+			ev.Label("logger_records_call_sites_(addSource)")
 		}
 		ev.Label("handler:" + lm.HandlerNames[b.kind] + "/" + thresholdName(b.threshold))
 		ev.LabelN("requests", int64(len(b.reqs)))
